@@ -28,6 +28,14 @@ ExtsOfSet(T, I, S) == LET more == {e \in I : BaseOf(T, e) \in S} \ S IN
 \* own lexicon, its (transitive) bases and its (transitive) extensions
 Family(T, I, s) == {s} \cup BasesOf(T, I, s) \cup ExtsOfSet(T, I, {s})
 
+\* all lexicons connected to s through "extends" (multi-hop traversals may move from
+\* an extension to its base and on to the base's other extensions)
+RECURSIVE ComponentOf(_, _, _)
+ComponentOf(T, I, S) ==
+  LET more == UNION {Family(T, I, z) : z \in S} \ S IN
+    IF more = {} THEN S ELSE ComponentOf(T, I, S \cup more)
+Component(T, I, s) == ComponentOf(T, I, {s})
+
 (* ---- Wordnet(lexicon, lang, expand) ----------------------------------- *)
 \* cfg: [lexicon, lang, expand] with "~" = argument not given, expand "-" = ''
 IsDefault(cfg) == cfg.lexicon = "~" /\ cfg.lang = "~"
